@@ -40,6 +40,7 @@ type OutSpec struct {
 	Lock   string `json:"lock,omitempty"` // lock the fresh secret to this key id
 	Form   string `json:"form,omitempty"` // "", "ok", "nothex", "offcurve", "empty"
 	SecLen int    `json:"seclen,omitempty"`
+	SecMB  bool   `json:"secmb,omitempty"` // with SecLen: the secret is made of two-byte characters (bytes > characters)
 }
 
 type Op struct {
@@ -89,9 +90,11 @@ func isKeyAmount(v uint64) bool {
 	return v != 0 && v&(v-1) == 0 && v <= 1<<59
 }
 
+// amtFacts: amounts the specification computes with stay small enough for TLC's 32-bit integers even when summed and
+// multiplied by 1000 (msat); anything from 2^17 on travels as a decimal string ("big") and is refused by MintAPI by cause.
 func amtFacts(v uint64) (amt int, bigs string, isKey bool) {
 	isKey = isKeyAmount(v)
-	if v < 1<<30 {
+	if v < 1<<17 {
 		return int(v), "", isKey
 	}
 	return 0, fmt.Sprintf("%d", v), isKey
@@ -132,7 +135,11 @@ func (w *World) buildOutputs(specs []OutSpec) (cashu.BlindedMessages, []any, boo
 		if oi == nil {
 			secID := sp.Sec
 			if sp.SecLen > 0 {
-				si := w.Reg.InternSecret(strings.Repeat("a", sp.SecLen-16)+hex.EncodeToString(w.rng.bytes(8)), "none")
+				filler := strings.Repeat("a", sp.SecLen-16)
+				if sp.SecMB {
+					filler = strings.Repeat("\u00e9", (sp.SecLen-16)/2)
+				}
+				si := w.Reg.InternSecret(filler+hex.EncodeToString(w.rng.bytes(8)), "none")
 				secID = si.ID
 			}
 			oi = w.NewOutput(secID, sp.Lock, ksReal, amt)
@@ -966,6 +973,21 @@ func (w *World) opBalances(op Op) *Event {
 			rm[w.Reg.ksByReal[k]] = amtJSON(v)
 		}
 		r["issued"], r["redeemed"], r["balance"], r["disabled"] = im, rm, amtJSON(bal), info.Nuts.Nut04.Disabled
+		if w.ViaHTTP {
+			// what a client sees: the info endpoint itself
+			st, body, pan, _ := w.HTTPDo("GET", "/v1/info", "")
+			var hi struct {
+				Nuts struct {
+					N4 struct {
+						Disabled bool `json:"disabled"`
+					} `json:"4"`
+				} `json:"nuts"`
+			}
+			if pan || st != 200 || json.Unmarshal([]byte(body), &hi) != nil {
+				return fmt.Errorf("info endpoint: status %d", st)
+			}
+			r["disabled"] = hi.Nuts.N4.Disabled
+		}
 		return nil
 	})
 	finish(r, err, pan, msg)
